@@ -86,7 +86,7 @@ def run(repo, chk):
     chk.rule("R01.9", "no local is mistaken for an external: every construct that binds a name in the function scope is known to the collector (recorded as assigned, or as the name of a nested definition), otherwise reading the name makes the prologue fetch it from the globals at entry and the call fails", 15)
     chk.rule("R01.10", "an exception of the user's function is never swallowed by the machinery around it: no __exit__ of a ptera context manager returns a value (a truthy result would suppress the exception in flight)", 3)
     chk.rule("R01.11", "instrumenting leaves the module's globals as it found them: the binding of the function's own name, which exec() rebinds while the instrumented copy is built, is restored -- and removed again when there was none (methods, nested functions)", 2)
-    chk.rule("R01.8", "closure cells are shared, not copied: the function handed back is built over fn.__closure__, never over cell_contents", 1)
+    chk.rule("R01.8", "closure cells are shared, not copied: the function handed back is built over fn.__closure__, never over cell_contents; every variant references every closure variable", 2)
 
     cls, H, stats = Q.templates(repo, chk.tier)
     chk.analysed["engine_T"] = stats
@@ -423,6 +423,8 @@ def run(repo, chk):
                "fetches it from the globals at entry and fails with PteraNameError before running")
 
     # ------------------------------------------------------------------ R01.8
+    from .shared import closure_reference_obligations
+    closure_reference_obligations(repo, chk, "R01.8", H)
     tr = repo.func("transform.transform")
     copies = [norm(n)[:90] for n in walk_local(tr.node) if isinstance(n, ast.Attribute) and n.attr == "cell_contents"]
     chk.ob("R01.8", "transform.transform:closure-cells-copied", not copies, tr.where,
